@@ -14,6 +14,8 @@ open Tengo.Model.Json
 /-- `ws = *( %x20 / %x09 / %x0A / %x0D )` -/
 def WS (w : Bytes) : Prop := ∀ c ∈ w, isSpace c = true
 
+theorem ws_nil : WS [] := by intro c hc; simp at hc
+
 /-- What has been read of a number token. -/
 inductive NPhase where
   | neg      -- "-"
